@@ -125,6 +125,10 @@ fn find_in_list<const MAX: usize>(list: &Vec<PseudoLegalMove>, target: Move) -> 
 /// SAT instance within memory.)
 fn generator<const MAX: usize, const MODE: u8>(wtm: bool, men: &[(usize, u8)], with_rights: bool, with_ep: bool, tag: &str) -> (Pos, usize) {
     let p = family(wtm, men, with_rights, with_ep, tag);
+    generator_on::<MAX, MODE>(p, tag)
+}
+
+fn generator_on<const MAX: usize, const MODE: u8>(p: Pos, tag: &str) -> (Pos, usize) {
     let s = to_state(&p);
     let mut list: Vec<PseudoLegalMove> = Vec::with_capacity(128);
     MoveGenerator::compute_psuedo_legal_moves_into(&s, &mut list);
@@ -177,6 +181,18 @@ macro_rules! gen_harness {
     };
 }
 
+// probe: the same query with `Board::piece_at` and `Board::colored_attacks` replaced by their loop-free
+// stand-ins (ladder step 1, DESIGN §4.1)
+proof_geo! {
+    #[cfg_attr(kani, kani::stub(std::vec::Vec::push, crate::stubs::push_noalloc))]
+    #[cfg_attr(kani, kani::stub(weechess_core::Board::piece_at, crate::stubs::piece_at))]
+    #[cfg_attr(kani, kani::stub(weechess_core::Board::colored_attacks, crate::stubs::colored_attacks))]
+    fn probe_gen_kp_kp_ep_black_complete_fast() {
+        let (p, len) = generator::<12, 1>(false, &[(1, 1), (0, 1)], false, true, "c01 probe fast");
+        let _ = (&p, len);
+    }
+}
+
 type Cv = fn(&Pos, usize) -> bool;
 
 // bare kings
@@ -207,13 +223,28 @@ gen_harness!(gen_kp_kp_ep_white_sound, gen_kp_kp_ep_white_complete, 12, true, &[
      (|p: &Pos, _n: usize| p.ep != NO_SQ && geo_pawn(p.ep, false) & p.bb[0][P] == 0), "target set but no pawn can take"]);
 gen_harness!(gen_kp_kp_ep_black_sound, gen_kp_kp_ep_black_complete, 12, false, &[(1, 1), (0, 1)], false, true,
     [(|p: &Pos, _n: usize| p.ep != NO_SQ && geo_pawn(p.ep, true) & p.bb[1][P] != 0), "en-passant capture available"]);
-// castling: king and both rooks with symbolic rights, one enemy rook (attacks on e/f/g, e/d/c, b1/b8, blockers)
-gen_harness!(gen_castle_white_sound, gen_castle_white_complete, 40, true, &[(0, 4), (0, 4), (1, 4)], true, false,
-    [(|p: &Pos, _n: usize| p.rights[1] && gen_pseudo(p, Mv { from: 4, to: 2, promo: 0 }) && attacked_ref(&p.bb, 1, 1)), "queen-side castling allowed while b1 is attacked";
-     (|p: &Pos, _n: usize| p.rights[0] && !gen_pseudo(p, Mv { from: 4, to: 6, promo: 0 }) && p.occ() & 0x60 == 0), "king-side castling refused through an attacked square"]);
-gen_harness!(gen_castle_black_sound, gen_castle_black_complete, 40, false, &[(1, 4), (1, 4), (0, 4)], true, false,
-    [(|p: &Pos, _n: usize| p.rights[3] && gen_pseudo(p, Mv { from: 60, to: 58, promo: 0 }) && attacked_ref(&p.bb, 0, 57)), "queen-side castling allowed while b8 is attacked";
-     (|p: &Pos, _n: usize| p.rights[2] && !gen_pseudo(p, Mv { from: 60, to: 62, promo: 0 }) && p.occ() & (0x60u64 << 56) == 0), "king-side castling refused through an attacked square"]);
+// castling: king and both rooks at home with symbolic rights; the opposing king and one opposing rook on
+// symbolic squares (attacks on e/f/g, e/d/c, b1/b8; blockers on the path)
+macro_rules! castle_harness {
+    ($name:ident, $mode:expr, $wtm:expr) => {
+        proof_geo! {
+            #[cfg_attr(kani, kani::stub(std::vec::Vec::push, crate::stubs::push_noalloc))]
+            fn $name() {
+                let p = castle_family($wtm, &[4], concat!("c01 ", stringify!($name)));
+                let (p, _len) = generator_on::<40, $mode>(p, concat!("c01 ", stringify!($name)));
+                let (qs, ks, home, b_sq): (usize, usize, u8, u8) = if $wtm { (1, 0, 4, 1) } else { (3, 2, 60, 57) };
+                kani::cover!(p.rights[qs] && gen_pseudo(&p, Mv { from: home, to: home - 2, promo: 0 }) && attacked_ref(&p.bb, p.them(), b_sq), "queen-side castling allowed while the b-file square is attacked");
+                kani::cover!(p.rights[ks] && !gen_pseudo(&p, Mv { from: home, to: home + 2, promo: 0 }) && p.occ() & (bit(home + 1) | bit(home + 2)) == 0, "king-side castling refused through an attacked square");
+                kani::cover!(p.rights[qs] && p.occ() & bit(b_sq) != 0, "queen-side path blocked on the b-file only");
+            }
+        }
+    };
+}
+
+castle_harness!(gen_castle_white_sound, 0, true);
+castle_harness!(gen_castle_white_complete, 1, true);
+castle_harness!(gen_castle_black_sound, 0, false);
+castle_harness!(gen_castle_black_complete, 1, false);
 
 proof_geo! {
     #[cfg_attr(kani, kani::stub(std::vec::Vec::push, crate::stubs::push_noalloc))]
